@@ -5,6 +5,7 @@ import Micm.Lemmas.RosLoop
 import Micm.Properties.C01
 import Mathlib.Algebra.BigOperators.Group.List.Basic
 import Mathlib.Data.List.Nodup
+import Mathlib.Data.List.Count
 
 /-!
 Lemmas for C12 (configuration independence in exact arithmetic):
@@ -273,10 +274,10 @@ def LUKind.needsDiag : LUKind → Bool
   | .mozart | .mozartInPlace => true
   | _ => false
 
-theorem build_kind (kind : LUKind) (jac : Pattern) : (LinAlg.build kind jac).kind = kind := by
+theorem cfg_build_kind (kind : LUKind) (jac : Pattern) : (LinAlg.build kind jac).kind = kind := by
   cases kind <;> rfl
 
-theorem build_A_n (kind : LUKind) (jac : Pattern) : (LinAlg.build kind jac).A.n = jac.n := by
+theorem cfg_build_A_n (kind : LUKind) (jac : Pattern) : (LinAlg.build kind jac).A.n = jac.n := by
   cases kind <;> rfl
 
 /-- C04 in uniform notation: for every variant, `Factor; Solve` solves `A y = b` -/
@@ -377,12 +378,12 @@ theorem foldl_step_size (step : Array K × Nat → SubRow → Array K × Nat)
   | nil => rfl
   | cons r rows ih => simp only [List.foldl_cons, ih, hstep]
 
-theorem solveCell_size (fw bw : List SubRow) (L U x : Array K) :
+theorem cfg_solveCell_size (fw bw : List SubRow) (L U x : Array K) :
     (solveCell fw bw L U x).size = x.size := by
   rw [solveCell_eq, foldl_step_size (bwStep U) (fun s r => by simp [bwStep, cfg_subRowFold_size, wr_size]),
     foldl_step_size (fwStep L) (fun s r => by simp [fwStep, cfg_subRowFold_size, wr_size])]
 
-theorem solveInPlaceCell_size (fw bw : List SubRow) (M x : Array K) :
+theorem cfg_solveInPlaceCell_size (fw bw : List SubRow) (M x : Array K) :
     (solveInPlaceCell fw bw M x).size = x.size := by
   rw [solveInPlaceCell_eq,
     foldl_step_size (bwStep M) (fun s r => by simp [bwStep, cfg_subRowFold_size, wr_size]),
@@ -391,7 +392,7 @@ theorem solveInPlaceCell_size (fw bw : List SubRow) (M x : Array K) :
 theorem factorSolveCell_size (la : LinAlg) (a l0 u0 b : Array K) :
     (la.factorSolveCell a l0 u0 b).size = b.size := by
   unfold LinAlg.factorSolveCell
-  split <;> first | exact solveCell_size _ _ _ _ _ | exact solveInPlaceCell_size _ _ _ _
+  split <;> first | exact cfg_solveCell_size _ _ _ _ _ | exact cfg_solveInPlaceCell_size _ _ _ _
 
 /-! ### the model's `factor` / `linSolve` on whole matrices -/
 
@@ -403,7 +404,7 @@ theorem linSolve_factor_getD (s : SolverCfg K) (J Lo Up x : Mat K) (c : Nat) (hc
   unfold SolverCfg.linSolve SolverCfg.factor LinAlg.factorSolveCell
   cases hk : s.la.kind <;> simp [LUKind.inPlace, Array.getD, hc, hcJ]
 
-theorem linSolve_size (s : SolverCfg K) (J Lo Up x : Mat K) : (s.linSolve J Lo Up x).size = x.size := by
+theorem cfg_linSolve_size (s : SolverCfg K) (J Lo Up x : Mat K) : (s.linSolve J Lo Up x).size = x.size := by
   unfold SolverCfg.linSolve
   split <;> simp
 
@@ -573,12 +574,12 @@ theorem MatShape.forcing {nCells n : Nat} {f : Mat K} (hf : MatShape nCells n f)
 
 theorem MatShape.linSolve {nCells n : Nat} {x : Mat K} (hx : MatShape nCells n x) (s : SolverCfg K)
     (J Lo Up : Mat K) : MatShape nCells n (s.linSolve J Lo Up x) := by
-  refine ⟨by rw [linSolve_size]; exact hx.1, fun c hc => ?_⟩
+  refine ⟨by rw [cfg_linSolve_size]; exact hx.1, fun c hc => ?_⟩
   have hc' : c < x.size := by rw [hx.1]; exact hc
   have := hx.2 c hc
   rw [getD_lt _ _ _ hc'] at this
   unfold SolverCfg.linSolve
-  split <;> simp [Array.getD, hc', solveCell_size, solveInPlaceCell_size, this]
+  split <;> simp [Array.getD, hc', cfg_solveCell_size, cfg_solveInPlaceCell_size, this]
 
 /-- every stage vector held in `K` has the logical shape -/
 def KShape (nCells n : Nat) (Ks : Array (Mat K)) : Prop :=
@@ -689,9 +690,9 @@ theorem linSolve_config_indep (s₁ s₂ : SolverCfg K) (kind₁ kind₂ : LUKin
     (x : Mat K) (hx : MatShape nCells n x) :
     s₁.linSolve (s₁.factor M₁ Lo₁ Up₁).1 (s₁.factor M₁ Lo₁ Up₁).2.1 (s₁.factor M₁ Lo₁ Up₁).2.2 x
       = s₂.linSolve (s₂.factor M₂ Lo₂ Up₂).1 (s₂.factor M₂ Lo₂ Up₂).2.1 (s₂.factor M₂ Lo₂ Up₂).2.2 x := by
-  apply mat_ext_getD (by rw [linSolve_size, linSolve_size])
+  apply mat_ext_getD (by rw [cfg_linSolve_size, cfg_linSolve_size])
   intro c hc
-  rw [linSolve_size] at hc
+  rw [cfg_linSolve_size] at hc
   have hcn : c < nCells := by rw [← hx.1]; exact hc
   rw [linSolve_factor_getD s₁ _ _ _ _ c hc (by omega), linSolve_factor_getD s₂ _ _ _ _ c hc (by omega)]
   apply arr_ext_rd (by rw [factorSolveCell_size, factorSolveCell_size])
@@ -757,7 +758,7 @@ theorem cfgSet_wf_sup (kind : LUKind) (n : Nat) (csc : Bool) (L : Nat) (set : Li
 /-- what the builder (`mkCfg` of `Micm/Model/Driver.lean`) produces for one configuration:
     `n` species, forcing/Jacobian tables `t`, storage order `csc`, sparse group length `Ls`
     (the source pairs it with the dense group length `s.L`), LU variant `kind` -/
-structure BuiltCfg (s : SolverCfg K) (t : PSTables K) (n : Nat) (csc : Bool) (Ls : Nat)
+structure CfgBuilt (s : SolverCfg K) (t : PSTables K) (n : Nat) (csc : Bool) (Ls : Nat)
     (kind : LUKind) : Prop where
   nSpecies : s.nSpecies = n
   tables : s.tables = t
@@ -765,10 +766,10 @@ structure BuiltCfg (s : SolverCfg K) (t : PSTables K) (n : Nat) (csc : Bool) (Ls
   flat : t.jacobianFlatIds s.la.A = .ok s.flatIds
   diag : s.diag = s.la.A.diagRanks
 
-theorem jacobian_size (s : SolverCfg K) (kc Y J : Mat K) : (s.jacobian kc Y J).size = J.size := by
+theorem cfg_jacobian_size (s : SolverCfg K) (kc Y J : Mat K) : (s.jacobian kc Y J).size = J.size := by
   simp [SolverCfg.jacobian]
 
-theorem jacobian_getD (s : SolverCfg K) (kc Y J : Mat K) (c : Nat) (hc : c < J.size) :
+theorem cfg_jacobian_getD (s : SolverCfg K) (kc Y J : Mat K) (c : Nat) (hc : c < J.size) :
     (s.jacobian kc Y J).getD c #[]
       = s.tables.subtractJacobianCell s.flatIds (kc.getD c #[]) (Y.getD c #[]) (J.getD c #[]) := by
   simp [SolverCfg.jacobian, Array.getD, hc]
@@ -782,10 +783,10 @@ theorem fillM_getD (B : Mat K) (v : K) (c : Nat) (hc : c < B.size) :
   · intro i h1 h2
     simp [fillM, Array.getD, hc]
 
-theorem alphaMinusJacobian_size (s : SolverCfg K) (J : Mat K) (a : K) :
+theorem cfg_alphaMinusJacobian_size (s : SolverCfg K) (J : Mat K) (a : K) :
     (s.alphaMinusJacobian J a).size = J.size := by simp [alphaMinusJacobian_eq]
 
-theorem alphaMinusJacobian_getD (s : SolverCfg K) (J : Mat K) (a : K) (c : Nat) (hc : c < J.size) :
+theorem cfg_alphaMinusJacobian_getD (s : SolverCfg K) (J : Mat K) (a : K) (c : Nat) (hc : c < J.size) :
     (s.alphaMinusJacobian J a).getD c #[] = shiftRow s.diag (J.getD c #[]) a := by
   simp [alphaMinusJacobian_eq, Array.getD, hc]
 
@@ -798,7 +799,7 @@ theorem built_matrix_view (procs : List (Process K)) (m : NameMap) (t : PSTables
     (hk : (m.map (·.1)).Nodup) (hv : (m.map (·.2)).Nodup)
     (hparam : ∀ p ∈ procs, ∀ r ∈ p.reactants, r.param = true → nmLookup m r.name = none)
     (n : Nat) (hn : ∀ e ∈ m, e.2 < n) (s : SolverCfg K) (csc : Bool) (Ls : Nat) (kind : LUKind)
-    (hs : BuiltCfg s t n csc Ls kind) (kc Y B : Mat K) (a : K) (c : Nat) (hc : c < B.size)
+    (hs : CfgBuilt s t n csc Ls kind) (kc Y B : Mat K) (a : K) (c : Nat) (hc : c < B.size)
     (hB : (B.getD c #[]).size = s.la.A.nnz) (r c' : Nat) (hr : r < n) :
     ((s.alphaMinusJacobian (s.jacobian kc Y (fillM B 0)) a).getD c #[]).size = s.la.A.nnz ∧
     view s.la.A ((s.alphaMinusJacobian (s.jacobian kc Y (fillM B 0)) a).getD c #[]) r c'
@@ -816,8 +817,8 @@ theorem built_matrix_view (procs : List (Process K)) (m : NameMap) (t : PSTables
     rw [hA, hflat] at this
     exact Except.ok.inj this
   subst hfl
-  rw [alphaMinusJacobian_getD _ _ _ _ (by rw [jacobian_size, fillM_size]; exact hc),
-    jacobian_getD _ _ _ _ _ (by rw [fillM_size]; exact hc), fillM_getD _ _ _ hc, hs.diag, hs.tables, hB, hA]
+  rw [cfg_alphaMinusJacobian_getD _ _ _ _ (by rw [cfg_jacobian_size, fillM_size]; exact hc),
+    cfg_jacobian_getD _ _ _ _ _ (by rw [fillM_size]; exact hc), fillM_getD _ _ _ hc, hs.diag, hs.tables, hB, hA]
   have hsz : (t.subtractJacobianCell s.flatIds (kc.getD c #[]) (Y.getD c #[])
       (Array.replicate (Pattern.mk' n csc Ls (cfgSet kind n csc Ls
         (buildJacobianSet n t.nonZeroJacobianElements))).nnz 0)).size
@@ -887,5 +888,162 @@ theorem attempt_config_indep (o : Ops K) (cs : Consts K) (p : RosParams K) (kc :
   refine ⟨hK, hYn, hYe, hE, ?_⟩
   unfold attDecide
   rw [hE, hctl]
+
+/-! ## 3b. reordering of the state (relabelling of the species indices) -/
+
+/-- the name map with the species indices relabelled by `σ` -/
+def relabel (σ : Nat → Nat) (m : NameMap) : NameMap := m.map fun e => (e.1, σ e.2)
+
+theorem nmLookup_relabel (σ : Nat → Nat) (m : NameMap) (name : String) :
+    nmLookup (relabel σ m) name = (nmLookup m name).map σ := by
+  unfold nmLookup relabel
+  rw [List.find?_map]
+  simp only [Option.map_map]
+  rfl
+
+theorem reactIdsP_relabel (σ : Nat → Nat) (m : NameMap) (l : List SpecRef) :
+    reactIdsP (relabel σ m) l = (reactIdsP m l).map σ := by
+  unfold reactIdsP
+  rw [List.map_filterMap]
+  congr 1
+  funext r
+  rw [nmLookup_relabel]
+  split <;> rfl
+
+theorem prodIdsP_relabel (σ : Nat → Nat) (m : NameMap) (l : List (SpecRef × K)) :
+    prodIdsP (relabel σ m) l = (prodIdsP m l).map fun p => (σ p.1, p.2) := by
+  unfold prodIdsP
+  rw [List.map_filterMap]
+  congr 1
+  funext r
+  rw [nmLookup_relabel]
+  split
+  · rfl
+  · cases nmLookup m r.1.name <;> rfl
+
+/-- relabelling does not change which names are known: the builds succeed together -/
+theorem relabel_build_ok_iff (σ : Nat → Nat) (m : NameMap) (procs : List (Process K)) :
+    (∃ t, ProcessSet.build procs (relabel σ m) = .ok t) ↔ ∃ t, ProcessSet.build procs m = .ok t := by
+  rw [(C01_build_extends (relabel σ m) procs).2.2, (C01_build_extends m procs).2.2,
+    C01_build_ok_iff, C01_build_ok_iff]
+  simp only [nmLookup_relabel, Option.isSome_map]
+
+theorem sum_filter_relabel (σ : Nat → Nat) (hσ : Function.Injective σ) (l : List (Nat × K)) (i : Nat) :
+    (((l.map fun p => (σ p.1, p.2)).filter (fun p => p.1 = σ i)).map (·.2)).sum
+      = ((l.filter (fun p => p.1 = i)).map (·.2)).sum := by
+  rw [List.filter_map, List.map_map]
+  congr 2
+  apply List.filter_congr
+  intro p _
+  simp [hσ.eq_iff]
+
+/-- **equivariance of the forcing** under a relabelling `σ` (injective) of the species: entry
+    `σ i` of the forcing of the relabelled problem, evaluated on a relabelled state, equals entry
+    `i` of the original forcing.  (The sums over reactions consist of the same terms.) -/
+theorem forcing_relabel (σ : Nat → Nat) (hσ : Function.Injective σ) (m : NameMap)
+    (procs : List (Process K)) (t t' : PSTables K)
+    (h : buildForcing m procs = .ok t ∨ ProcessSet.build procs m = .ok t)
+    (h' : buildForcing (relabel σ m) procs = .ok t' ∨ ProcessSet.build procs (relabel σ m) = .ok t')
+    (k y y' f f' : Array K) (hy : ∀ j, rd y' (σ j) = rd y j)
+    (i : Nat) (hi : i < f.size) (hi' : σ i < f'.size) (hf : rd f' (σ i) = rd f i) :
+    rd (t'.addForcingCell k y' f') (σ i) = rd (t.addForcingCell k y f) i := by
+  rw [C01_forcing_mass_action' m procs t h k y f i hi,
+    C01_forcing_mass_action' (relabel σ m) procs t' h' k y' f' (σ i) hi', hf]
+  congr 2
+  apply List.map_congr_left
+  intro pk _
+  rw [reactIdsP_relabel, prodIdsP_relabel, sum_filter_relabel σ hσ,
+    List.count_map_of_injective _ σ hσ, List.map_map]
+  congr 3
+  apply List.map_congr_left
+  intro j _
+  exact hy j
+
+theorem jacNet_relabel (σ : Nat → Nat) (hσ : Function.Injective σ) (rs : List Nat)
+    (pr : List (Nat × K)) (i : Nat) :
+    jacNet (rs.map σ) (pr.map fun p => (σ p.1, p.2)) (σ i) = jacNet rs pr i := by
+  unfold jacNet
+  rw [sum_filter_relabel σ hσ, List.count_map_of_injective _ σ hσ]
+
+theorem dMonomial_relabel (σ : Nat → Nat) (hσ : Function.Injective σ) (y y' : Nat → K)
+    (hy : ∀ j, y' (σ j) = y j) (rs : List Nat) (j : Nat) :
+    dMonomial y' (rs.map σ) (σ j) = dMonomial y rs j := by
+  unfold dMonomial
+  rw [List.count_map_of_injective _ σ hσ, ← List.map_erase hσ, List.map_map]
+  congr 3
+  funext a
+  exact hy a
+
+/-- **equivariance of the Jacobian**: the formal derivative `∂f_{σ i}/∂y_{σ j}` of the relabelled
+    problem equals `∂f_i/∂y_j` of the original -/
+theorem jacEntrySpec_relabel (σ : Nat → Nat) (hσ : Function.Injective σ) (m : NameMap)
+    (procs : List (Process K)) (k y y' : Array K) (hy : ∀ j, rd y' (σ j) = rd y j) (i j : Nat) :
+    jacEntrySpec procs (relabel σ m) k y' (σ i) (σ j) = jacEntrySpec procs m k y i j := by
+  unfold jacEntrySpec
+  congr 1
+  apply List.map_congr_left
+  intro pi _
+  have e1 : specReactIds (relabel σ m) pi.1.reactants = (specReactIds m pi.1.reactants).map σ :=
+    reactIdsP_relabel σ m _
+  have e2 : specProdIds (relabel σ m) pi.1.products
+      = (specProdIds m pi.1.products).map fun p => (σ p.1, p.2) := prodIdsP_relabel σ m _
+  rw [e1, e2, jacNet_relabel σ hσ, dMonomial_relabel σ hσ (rd y) (rd y') hy]
+
+/-! ### reordering and the linear solve -/
+
+theorem image_perm_range (σ : Nat → Nat) (n : Nat) (hinj : ∀ i, i < n → ∀ j, j < n → σ i = σ j → i = j)
+    (hr : ∀ i, i < n → σ i < n) : (range n).image σ = range n := by
+  apply Finset.eq_of_subset_of_card_le
+  · intro x hx
+    obtain ⟨i, hi, rfl⟩ := Finset.mem_image.mp hx
+    exact mem_range.mpr (hr i (mem_range.mp hi))
+  · rw [Finset.card_image_of_injOn]
+    intro i hi j hj h
+    exact hinj i (mem_range.mp hi) j (mem_range.mp hj) h
+
+theorem sum_perm_range (σ : Nat → Nat) (n : Nat) (hinj : ∀ i, i < n → ∀ j, j < n → σ i = σ j → i = j)
+    (hr : ∀ i, i < n → σ i < n) (f : Nat → K) :
+    ∑ j ∈ range n, f (σ j) = ∑ j ∈ range n, f j := by
+  conv_rhs => rw [← image_perm_range σ n hinj hr]
+  rw [Finset.sum_image]
+  intro i hi j hj h
+  exact hinj i (mem_range.mp hi) j (mem_range.mp hj) h
+
+/-- **`Factor; Solve` is equivariant under a relabelling of the unknowns**: if configuration 2
+    stores the symmetrically permuted matrix `A₂[σ r, σ c] = A₁[r, c]` and right-hand side
+    `b₂[σ i] = b₁[i]` (`σ` a permutation of `0 … n−1`; any two LU variants / patterns) and no pivot
+    vanishes in either ordering, then `y₂[σ j] = y₁[j]`.  (Unlike for a change of storage, the
+    pivots of the two orderings differ, so both pivot hypotheses are needed.) -/
+theorem factorSolve_relabel (σ : Nat → Nat) (n : Nat)
+    (hinj : ∀ i, i < n → ∀ j, j < n → σ i = σ j → i = j) (hr : ∀ i, i < n → σ i < n)
+    (kind₁ kind₂ : LUKind) (jac₁ jac₂ : Pattern) (hn₁ : jac₁.n = n) (hn₂ : jac₂.n = n)
+    (hd₁ : kind₁.needsDiag = true → ∀ i, i < n → jac₁.zero? i i = false)
+    (hd₂ : kind₂.needsDiag = true → ∀ i, i < n → jac₂.zero? i i = false)
+    (a₁ l₁ u₁ b₁ a₂ l₂ u₂ b₂ : Array K)
+    (hs₁ : (LinAlg.build kind₁ jac₁).SizesOK a₁ l₁ u₁) (hs₂ : (LinAlg.build kind₂ jac₂).SizesOK a₂ l₂ u₂)
+    (hb₁ : b₁.size = n) (hb₂ : b₂.size = n)
+    (hpiv₁ : ∀ i, i < n → (LinAlg.build kind₁ jac₁).pivot a₁ l₁ u₁ i ≠ 0)
+    (hpiv₂ : ∀ i, i < n → (LinAlg.build kind₂ jac₂).pivot a₂ l₂ u₂ i ≠ 0)
+    (hview : ∀ r c, r < n → c < n →
+      view (LinAlg.build kind₂ jac₂).A a₂ (σ r) (σ c) = view (LinAlg.build kind₁ jac₁).A a₁ r c)
+    (hb : ∀ i, i < n → rd b₂ (σ i) = rd b₁ i) :
+    ∀ j, j < n → rd ((LinAlg.build kind₂ jac₂).factorSolveCell a₂ l₂ u₂ b₂) (σ j)
+      = rd ((LinAlg.build kind₁ jac₁).factorSolveCell a₁ l₁ u₁ b₁) j := by
+  have e₁ := build_factorSolve_spec kind₁ jac₁ n hn₁ hd₁ a₁ l₁ u₁ b₁ hs₁ hb₁ hpiv₁
+  have e₂ := build_factorSolve_spec kind₂ jac₂ n hn₂ hd₂ a₂ l₂ u₂ b₂ hs₂ hb₂ hpiv₂
+  have hlu : DenseLU.IsLU n (view (LinAlg.build kind₁ jac₁).A a₁)
+      (DenseLU.lu (view (LinAlg.build kind₁ jac₁).A a₁) n).L
+      (DenseLU.lu (view (LinAlg.build kind₁ jac₁).A a₁) n).U :=
+    DenseLU.lu_isLU _ n (fun i hi => by
+      rw [← build_pivot_eq kind₁ jac₁ n hn₁ hd₁ a₁ l₁ u₁ hs₁ i hi]; exact hpiv₁ i hi)
+  refine lu_injective n _ _ _ hlu (fun i hi => ?_)
+    (fun j => rd ((LinAlg.build kind₂ jac₂).factorSolveCell a₂ l₂ u₂ b₂) (σ j)) _ (fun i hi => ?_)
+  · rw [← build_pivot_eq kind₁ jac₁ n hn₁ hd₁ a₁ l₁ u₁ hs₁ i hi]; exact hpiv₁ i hi
+  · rw [e₁ i hi, ← hb i hi, ← e₂ (σ i) (hr i hi),
+      ← sum_perm_range σ n hinj hr (fun j => view (LinAlg.build kind₂ jac₂).A a₂ (σ i) j *
+        rd ((LinAlg.build kind₂ jac₂).factorSolveCell a₂ l₂ u₂ b₂) j)]
+    apply sum_congr rfl
+    intro j hj
+    rw [hview i j hi (mem_range.mp hj)]
 
 end Micm
